@@ -280,6 +280,10 @@ inline std::vector<ClassDef> buildClasses()
             t.add(f.n, 20, 1, f.bit, __builtin_ctzll(f.bit), [cf](const T& o) -> uint64_t { return o.getCommonFlag(cf) ? 1 : 0; }, [cf](T& o, uint64_t v) { o.setCommonFlag(cf, v != 0); });
         }
         t.add("segmentType", 21, 1, 0x0C, 0, VF_G(T, o.getSegmentType()), VF_S(T, o.setSegmentType(static_cast<MessageHeader::SegmentType>(v))), {0x00, 0x04, 0x08, 0x0C});
+        // the two fields a packet takes from its payload: written in place through the reference from getPayload(), read
+        // back through the packet's own getters
+        t.add("messageType.writtenThroughGetPayload", 22, 4, 0x0000FF00, 8, VF_G(T, o.getMessageType()), VF_S(T, o.getPayload().setMessageType(static_cast<CmpHeader::MessageType>(v))));
+        t.add("payloadType.writtenThroughGetPayload", 22, 4, 0x000000FF, 0, VF_G(T, o.getPayloadType()), VF_S(T, o.getPayload().setRawPayloadType(static_cast<uint8_t>(v))));
         auto raw = [](const T& o) {
             Bytes b;
             wire::put8(b, o.getVersion());
